@@ -40,6 +40,24 @@ CAPS = ["chown", "dac_override", "dac_read_search", "fowner", "fsetid", "kill", 
         "mac_admin", "syslog", "wake_alarm", "block_suspend", "audit_read", "perfmon", "bpf", "checkpoint_restore"]
 
 
+CLASSES = ["is_archive", "is_audio", "is_book", "is_doc", "is_font", "is_image", "is_source", "is_video"]
+_DEFAULTS = {}
+
+
+def default_classes():
+    """The extension lists of the default configuration: data, read from src/config.rs of the tree under test."""
+    if not _DEFAULTS:
+        import re
+        text = open(os.path.join(core.REPO, "src", "config.rs"), encoding="utf-8").read()
+        text = text[text.index("pub fn default() -> Config"):]
+        for k in CLASSES:
+            m = re.search(r"\b%s: vec_of_strings!\[(.*?)\]" % k, text, re.S)
+            if not m:
+                raise HarnessError("default list of %s not found in config.rs" % k)
+            _DEFAULTS[k] = re.findall(r'"([^"]*)"', m.group(1))
+    return _DEFAULTS
+
+
 def cap_blob(eff, permitted, inheritable):
     """VFS_CAP_REVISION_2 value of security.capability as the latin-1 text the world model stores."""
     import struct
@@ -109,6 +127,16 @@ class Check:
         world["nodes"].append({"path": top + "/to_hollow", "type": "symlink", "target": "hollow"})
         world["nodes"].append({"path": top + "/to_empty_file", "type": "symlink", "target": "zero.dat"})
         world["nodes"].append({"path": top + "/zero.dat", "type": "file", "content": ""})
+        if rng.random() < 0.5:
+            # names around the extension rule ("the lower-cased name ends with a configured extension"): a dot-file that IS an extension,
+            # the same last extension with and without a longer configured one in front, upper case, an extension without its dot
+            have_ = {n["path"] for n in world["nodes"]}
+            for nm_ in rng.sample([".gz", ".mp3", "x.gz", "a.tar.gz", "B.GZ", "gz", "song.mp3.txt", ".rs", "noext2", "lib.rs", ".tar.gz", "pic.JPG", "jpg", "v.mp4.", "doc.pdf"], rng.choice([4, 8, 15])):
+                if top + "/" + nm_ not in have_:
+                    world["nodes"].append({"path": top + "/" + nm_, "type": rng.choice(["file", "file", "file", "dir"]), **({})})
+            for n in world["nodes"]:
+                if n["type"] == "file" and "content" not in n and "sparse" not in n and "pat" not in n and "zip" not in n:
+                    n["content"] = ""
         noise, noise_where = [], None
         if rng.random() < 0.5:
             noise = rng.sample(NOISE, rng.choice([1, 2, 3]))
@@ -152,7 +180,7 @@ class Check:
         classes = None
         if rng.random() < 0.2:
             # the user's configuration replaces extension lists (the active configuration decides the extension classes)
-            classes = {"is_archive": rng.sample([".zip", ".txt", ".gz", ".c", ".x1"], 2), "is_image": rng.sample([".jpg", ".md", ".o", ".py"], 2), "is_source": rng.sample([".rs", ".log", ".tar.gz", ".zip"], 2)}
+            classes = {"is_archive": rng.sample([".zip", ".txt", ".gz", ".c", ".x1", ".tar.gz"], 2), "is_image": rng.sample([".jpg", ".md", ".o", ".py"], 2), "is_source": rng.sample([".rs", ".log", ".tar.gz", ".zip"], 2)}
         return {"sub": "meta", "world": world, "top": top, "plan": plan, "tz": rng.choice(["UTC", "Europe/Berlin", "America/New_York", "Asia/Kolkata"]),
                 "mode": rng.choice(["bfs", "dfs"]), "classes": classes, "noise": noise, "noise_where": noise_where, "shuffle": rng.randrange(1 << 30)}
 
@@ -411,8 +439,10 @@ class Check:
                 "dir", "abspath", "absdir"]
         classes = case.get("classes")
         config = None
+        cols += CLASSES
+        active = dict(default_classes())
         if classes:
-            cols += sorted(classes)
+            active.update(classes)
             config = "".join("%s = [%s]\n" % (k, ", ".join('"%s"' % e for e in v)) for k, v in sorted(classes.items()))
         cols += [c for c in case.get("noise") or [] if c not in cols]
         if case.get("noise"):
@@ -462,7 +492,7 @@ class Check:
                     want["abspath"] = os.path.realpath(os.path.join(sb.root, path), strict=True)
                 except OSError:
                     want["abspath"] = ""
-                for k_, exts_ in (classes or {}).items():
+                for k_, exts_ in active.items():
                     want[k_] = "true" if path.rsplit("/", 1)[-1].lower().endswith(tuple(exts_)) else "false"
                 if "atime" in ov:  # asserted only for a simulated answer (the real atime is moved by the run itself)
                     want["accessed"] = datetime.datetime.fromtimestamp(ov["atime"] // 10 ** 9, tz).strftime("%Y-%m-%d %H:%M:%S")
